@@ -1074,6 +1074,11 @@ fn challenge_score_scheme(
     )
 }
 
+#[cfg(maidsafe_safe_network_verif)]
+mod verif;
+#[cfg(maidsafe_safe_network_verif)]
+pub use verif::VerifNode;
+
 #[cfg(test)]
 mod tests {
     use super::*;
